@@ -154,6 +154,17 @@ fn op_int(req: &Value) -> Value {
             let b = I54::try_from(m as i64).unwrap();
             json!({"ok": [a < b, a == b, a > b, a == (m as i64), a < (m as i64)]})
         }
+        // mixed comparison of an in-range value with an arbitrary raw u64 / i64
+        "u53cmpraw" => {
+            let m = int(req, "m") as u64;
+            let a = U53::try_from(n as u64).unwrap();
+            json!({"ok": [a < m, a == m, a > m, a <= m, a >= m]})
+        }
+        "i54cmpraw" => {
+            let m = int(req, "m") as i64;
+            let a = I54::try_from(n as i64).unwrap();
+            json!({"ok": [a < m, a == m, a > m, a <= m, a >= m]})
+        }
         _ => json!({"bad-request": "int"}),
     }
 }
